@@ -18,8 +18,10 @@
 (*                 (so no second string decodes to an encodable value)     *)
 (*   Capacity      CompactLen(v) <= the fixed buffer the implementation    *)
 (*                 uses for width W (2/4/5/9/17 bytes)                     *)
+(*   ImplRefines   CompactImpl.ImplDec (the code's branches, transcribed)  *)
+(*                 = CompactDec on every explored string                   *)
 (***************************************************************************)
-EXTENDS TypeLib
+EXTENDS TypeLib, CompactImpl
 
 CONSTANT Tier
 VARIABLES mode, W, x
@@ -88,4 +90,9 @@ Canonical ==
             /\ SubSeq(x, 1, d.p) = CompactEnc(d.v)
 
 Capacity == mode = "val" => CompactLen(x) <= Cap(W)
+
+\* the transcription of the code's decoder branches is the requirement's decoder
+ImplRefines ==
+  mode = "str" => LET i == ImplDec(W, x, 0)  r == CompactDec(W, x, 0) IN
+                  i.ok = r.ok /\ (i.ok => i.v = r.v /\ i.p = r.p)
 =============================================================================
